@@ -415,6 +415,17 @@ def check_1d_index(rec: core.Recorder, *, op: str, pre: dict, index, result, exc
                     if r["underflow"] != eu or r["overflow"] != eo:
                         fail("contents cut off by a contiguous slice were not added to underflow / overflow", ["underflow", "overflow"],
                              got=[r["underflow"], r["overflow"]], expected=[eu, eo])
+                    # integer contents: the bookkeeping is exact integer arithmetic (also beyond 2**53, where a detour through float64 rounds)
+                    if h is not None and f.dtype.kind in "iu" and np.dtype(r["dtype"]).kind in "iu":
+                        try:
+                            xu = int(h.underflow) + int(f[:start].astype(object).sum() if start else 0)
+                            xo = int(h.overflow) + int(f[stop:].astype(object).sum() if stop < n else 0)
+                            gu, go = int(result.underflow), int(result.overflow)
+                            top = int(np.iinfo(np.dtype(r["dtype"])).max)
+                            if xu <= top and xo <= top and (gu != xu or go != xo):
+                                fail("under / overflow of a contiguous slice of integer contents are not the exact integer sums", ["underflow", "overflow"], got=[gu, go], expected=[xu, xo])
+                        except (TypeError, ValueError, OverflowError):
+                            pass
                     tot1 = float(_arr(r, "frequencies").astype(float).sum()) + r["underflow"] + r["overflow"]
                     if abs(tot1 - tot0) > 1e-9 * (abs(tot0) + 1):
                         fail("total + underflow + overflow not conserved by a contiguous slice", ["total"], before=tot0, after=tot1)
@@ -516,7 +527,7 @@ class GetitemMonitor(Handler):
         if self.method == "__getitem__":
             index = call.args[1] if len(call.args) > 1 else None
             if pre["ndim"] == 1 and "underflow" in pre:
-                check_1d_index(rec, op=op, pre=pre, index=index, result=call.result, exc=call.exc)
+                check_1d_index(rec, op=op, pre=pre, index=index, result=call.result, exc=call.exc, h=call.self)
             else:
                 if isinstance(index, (int, np.integer, slice)):
                     index = (index,)
@@ -527,7 +538,7 @@ class GetitemMonitor(Handler):
             index = call.args[2] if len(call.args) > 2 else call.kwargs.get("index")
             if pre["ndim"] == 1 and "underflow" in pre:
                 if axis == 0:
-                    check_1d_index(rec, op=op, pre=pre, index=index, result=call.result, exc=call.exc)
+                    check_1d_index(rec, op=op, pre=pre, index=index, result=call.result, exc=call.exc, h=call.self)
             else:
                 ax = resolve_axes(pre, (axis,))
                 if ax is None:
